@@ -74,6 +74,16 @@ Theorem spt_check_reoriented : forall alts p T T',
 Proof. exact Proofs.Tree.spt_check_reoriented. Qed.
 Print Assumptions spt_check_reoriented.
 
+(* ---- sanity of the definition "m-1 edges + connected": such a graph is minimally connected — deleting any
+   edge disconnects it, so every edge is a bridge and there is no cycle ---- *)
+Theorem spanning_tree_minimal : forall alts T1 e T2,
+  NoDup alts -> spanning_tree alts (T1 ++ e :: T2) -> ~ connected (T1 ++ T2) alts.
+Proof. exact Proofs.Tree.spanning_tree_minimal. Qed.
+Print Assumptions spanning_tree_minimal.
+Theorem connected_edge_bound : forall alts T, NoDup alts -> connected T alts -> length alts <= S (length T).
+Proof. exact Proofs.Tree.connected_edge_bound. Qed.
+Print Assumptions connected_edge_bound.
+
 (* ---- the enumeration is complete: every spanning tree is, as an undirected edge set, a candidate ---- *)
 Theorem cand_trees_complete : forall alts T,
   NoDup alts -> spanning_tree alts T ->
@@ -108,6 +118,10 @@ Theorem spt_decide_relabel : forall f alts p,
 Proof. exact Proofs.Tree.spt_decide_relabel. Qed.
 Print Assumptions spt_decide_relabel.
 
+Theorem SPT_subprofile : forall alts p p', (forall v, In v p' -> In v p) -> SPT alts p -> SPT alts p'.
+Proof. exact Proofs.Tree.SPT_subprofile. Qed.
+Print Assumptions SPT_subprofile.
+
 (* ---- non-vacuity ---- *)
 Local Open Scope N_scope.
 Definition ex_alts : list N := [1; 2; 3; 4].
@@ -138,3 +152,13 @@ Example checker_rejects :
   tree_check ex_alts [(1, 2); (2, 3); (3, 1)] = false.
 Proof. vm_compute. repeat split. Qed.
 Print Assumptions checker_rejects.
+
+(* NOT hereditary under deletion of alternatives (so no alternative-dropping shrink / embedded-core argument is
+   used for this property): every profile whose votes share their top alternative is single-peaked on the star
+   centred there, but all six orders of three alternatives are single-peaked on no tree *)
+Example not_hereditary_in_alternatives :
+  let p := map (cons 1) (perms [2; 3; 4]) in
+  spt_decide [1; 2; 3; 4] p = true /\
+  spt_decide [2; 3; 4] (map (filter (fun a => negb (N.eqb a 1))) p) = false.
+Proof. vm_compute. split; reflexivity. Qed.
+Print Assumptions not_hereditary_in_alternatives.
